@@ -67,6 +67,43 @@ def corpus():
     ]
 
 
+def e2e(V, tier, seed):
+    """The same connection over a real loopback TCP stream through the real accept_config (unit.rs): after
+    every kind of end the router is gone from router_states / router_info (what GET /routers/ lists), and the
+    trace ends WithdrawBulk, EndOfStream."""
+    import subprocess
+    runs = [["close"], ["reset"], ["shutdown"], ["short"]]
+    cuts = [0, 3, 5, 16, 17, 100, 148, 200] if tier == "quick" else list(range(0, 250, 3))
+    runs += [[m, str(c)] for c in cuts for m in (["close", "reset"] if tier == "quick" else ["close", "reset", "shutdown", "short"])]
+    fails, seen = [], {}
+    for r in runs:
+        p = subprocess.run([V.VH, "bstream-e2e"] + r, stdout=subprocess.PIPE, stderr=subprocess.PIPE, text=True, timeout=120)
+        out = p.stdout.strip()
+        toks = out.split()
+        ok = ("listed-before:1,1" in toks and "listed-after:0,0" in toks and len(toks) >= 5
+              and toks[-1] == "eos:router" and toks[-2].startswith("W:[") and sum(t.startswith("eos:") for t in toks) == 1)
+        seen[" ".join(r)] = out[:160]
+        if not ok:
+            fails.append({"what": f"end-to-end connection ({' '.join(r)}): expected the router to leave the router list and the trace to end "
+                                  f"WithdrawBulk, EndOfStream; observed: {out[:300]!r} {p.stderr[-200:]!r}",
+                          "kind": "property", "replay_cmd": f"{V.VH} bstream-e2e {' '.join(r)}"})
+    return {"name": "c07-e2e", "evaluations": len(runs), "coverage": {"runs": len(runs), "sample": dict(list(seen.items())[:4])}, "failures": fails[:3]}
+
+
+def gauge(V, tier, seed):
+    """bmp_num_connected_routers as /metrics renders it: 0 before, 1 while the connection is up, 0 after it was lost
+    (repaired by 4bfc4a9; C15-related)."""
+    import subprocess
+    p = subprocess.run([V.VH, "bstream-gauge"], stdout=subprocess.PIPE, text=True, timeout=120)
+    out = p.stdout.strip()
+    r = {"name": "c07-connected-routers-gauge", "evaluations": 1, "coverage": {"result": out[:200]}, "failures": []}
+    if not all(t in out.split() for t in ["before:0", "up:1", "after-connection-lost:0"]):
+        r["failures"].append({"what": f"bmp_num_connected_routers does not return to 0 after the connection was lost: {out[:200]!r}",
+                              "kind": "property", "replay_cmd": f"{V.VH} bstream-gauge"})
+    return r
+
+
+EXTRAS = [e2e, gauge]
 ENGINES = [{"name": "bstream", "gen": gen, "corpus": corpus, "nontrivial": nontrivial, "classify": classify, "shards": 12}]
 LEVEL_TEXT = ("Theorems over ALL scripts of read events (every cut point, every io::ErrorKind class at every position, end of file or unit shutdown), every "
               "parser and every starting register: the read loop of the BMP connection always reaches the post-loop block, and the updates that left "
@@ -76,6 +113,7 @@ LEVEL_TEXT = ("Theorems over ALL scripts of read events (every cut point, every 
               "read_from_router by cutting valid streams at every byte offset x error kinds through a scripted reader.")
 DESIGN_REF = "DESIGN.md section 6, C07"
 LEVEL_NOTE = ("Trusted: Coq kernel, extraction + OCaml driver, Rust harness (scripted AsyncRead, capture Link) and generators. PARTIAL: the removal of the "
-              "session from router_states/router_info happens in the task spawned by unit.rs accept_config after run() returns and is not in the model; "
+              "session from router_states/router_info happens in the task spawned by unit.rs accept_config after run() returns; it is not in the model and is "
+              "checked on the implementation only (real loopback TCP connections through the real accept_config: close, reset, shutdown, short header, cuts); "
               "the BGP session end (bgp_tcp_in router_handler.rs) is not modelled; routecore and tokio are exercised, not modelled.")
 TECHNIQUE = "Coq proof by induction over read-event scripts with a session invariant + model/implementation correspondence at every cut point"
